@@ -254,7 +254,7 @@ PROPS = {
             "consistently to all siblings is rejected as well (R-TRUNCLAW, 14 unit cases); (6) date(<string>) converts through "
             "strptime('%Y-%m-%d') and nothing else, date(y, m, d) is datetime.date(y, m, d), and possign / account_sortkey "
             "classify accounts with the account types of this very ledger (R-CASTDEF). NOT decided (equalities over run-time values, outside static reach): the "
-            "inverse pairs (date_add / date_diff), ISO week numbers, regex results, decimal arithmetic. findfirst, grep and grepn are compared with reference implementations through the outside functions they apply and to what (re.match on each value in sorted order; re.search(pattern, string) and the group taken)."),
+            "inverse pairs (date_add / date_diff), ISO week numbers, regex results, decimal arithmetic. findfirst, grep and grepn are compared with reference implementations through the outside functions they apply and to what (re.match on each value in sorted order; re.search(pattern, string) and the group taken). R-DEFN also holds a definition per implementation for the functions several overloads share a name for or that branch - quarter, weekday, today, units / cost / value / convert of amounts, positions and inventories (the beancount.core.convert function each applies, with the price map of the connection), getprice, filter_currency, possign, parse_date - compared path by path (the same value under the same conditions, however the conditions are spelled); safediv is decided with a zero and a non-zero divisor (the decimal zero without any division, else x / y); interval() is decided for every unit word its pattern admits (relativedelta of that calendar unit with the integer written), the pattern itself on membership vectors (`[+-]digits blank(s) unit[s]` over the whole argument), NULL otherwise."),
         'assumptions': TRUSTED_ABSINT[:1],
         'quick': [lib.rule_casttotal, sxl.rule_defn, sxdb.rule_binfloor, sxdb.rule_trunclaw, sxl.rule_castdef],
         'thorough': [],
@@ -292,10 +292,10 @@ PROPS = {
             "record field, all tables registered, structure aliases consistent (R-TABLEFIELDS); meta()/entry_meta()/"
             "any_meta() rewritten to the right dictionary lookups, open/close selection from the (open, close) pair "
             "(R-METAREWRITE); getitem NULL-propagating (R-NULLSTRICT). Does not decide that beancount's getters and "
-            "convert functions compute what their names say. FROM qualifiers are applied to a copy of the connection's table, so the rows of a statement come from its own clauses only (R-TABLECOPY); getitem on a NULL container gives NULL with or without a default. attach() on terms, with and without a file name in the dsn: every class in TABLES is bound by a plain item store - replacing an earlier binding - to a table over the entries and options of this attach, and the connection's options and errors come from the same ledger (R-ATTACH)."),
+            "convert functions compute what their names say. FROM qualifiers are applied to a copy of the connection's table, so the rows of a statement come from its own clauses only (R-TABLECOPY); getitem on a NULL container gives NULL with or without a default. attach() on terms, with and without a file name in the dsn: every class in TABLES is bound by a plain item store - replacing an earlier binding - to a table over the entries and options of this attach, and the connection's options and errors come from the same ledger (R-ATTACH). GetAttrColumn / GetItemColumn evaluate to the attribute / item they were built with and announce the dtype given; _typed_namedtuple_to_columns makes one column per annotated field, in order, published under its renamed name but reading the field itself, Optional unwrapped, generics reduced to their origin, `meta` announced as Metadata (R-TYPEDCOLS, on terms with typing's introspection stubbed)."),
         'assumptions': TRUSTED_STRUCT + TRUSTED_ABSINT[:2],
         'quick': [tb.rule_accesspath, sxt.rule_rowgen, tb.rule_tablefields, tb.rule_metarewrite, dtype.rule_dtype_columns,
-                  dtype.rule_typesafe_columns, sxst.rule_tablecopy, st.rule_shared, sxt.rule_attach],
+                  dtype.rule_typesafe_columns, sxst.rule_tablecopy, st.rule_shared, sxt.rule_attach, sxt.rule_typedcols],
         'thorough': [],
     },
     'C13': {
